@@ -528,6 +528,16 @@ Definition target_hint_kind (specific : bool) (range_rep : bool) (v : variant) (
     end
   else target_hint_range range_rep v c g cond.
 
+(* hard-write (coordinator.hard-write = true): writes hash over EVERY shard of the group, whatever the state of the partitions.
+   Today the read side still hashes over the shards alive when the query runs. Repair (props/C11/fix5.patch, mapMstShards): look
+   the key up in the list the writes use, then keep the shards that are alive. *)
+Definition full_list (g : group) : list nat := seq 0 (length (g_shards g)).
+Definition is_alive_b (g : group) (s : shard) : bool := existsb (fun x => N.eqb (s_id x) (s_id s)) (all_alive g).
+Definition target_group_hw (v : variant) (c : cfg) (g : group) (cond : option expr) : list shard :=
+  filter (is_alive_b g) (target_group v c (set_alive g (full_list g)) cond).
+Definition target_hint_hw (specific range_rep : bool) (v : variant) (c : cfg) (g : group) (cond : option expr) : list shard :=
+  filter (is_alive_b g) (target_hint_kind specific range_rep v c (set_alive g (full_list g)) cond).
+
 Definition g_overlaps (g : group) (tmin tmax : Z) : bool := (g_start g <=? tmax) && (tmin <? g_end g).
 Definition query_groups (c : cfg) (tmin tmax : Z) : list group :=
   filter (fun g => negb (g_deleted g) && g_overlaps g tmin tmax) (c_groups c).
